@@ -340,7 +340,7 @@ Proof.
     + unfold start_op in Hstep. destruct o.
       * destruct (negb _); [inversion Hstep; subst; fin|].
         destruct (lookup s t); inversion Hstep; subst; fin.
-      * destruct (nth_error _ slot) as [[|id]|]; [inversion Hstep; subst; fin | | inversion Hstep; subst; fin].
+      * cbv zeta in Hstep; destruct (nth_error (t_slots _) slot) as [[|id]|]; [inversion Hstep; subst; fin | | inversion Hstep; subst; fin].
         destruct (get_handle s id) as [h|]; [|inversion Hstep; subst; fin].
         destruct (h_stale h); inversion Hstep; subst; fin.
       * destruct (negb _); [inversion Hstep; subst; fin|].
@@ -606,7 +606,7 @@ Proof.
     + unfold start_op in Hstep. destruct o; simpl prog_weight; simpl pending.
       * destruct (negb _); [inversion Hstep; subst; simpl; cons_done|].
         destruct (lookup s t); inversion Hstep; subst; simpl; cons_done.
-      * destruct (nth_error _ slot) as [[|i]|]; [inversion Hstep; subst; simpl; cons_done | | inversion Hstep; subst; simpl; cons_done].
+      * cbv zeta in Hstep; destruct (nth_error (t_slots _) slot) as [[|i]|]; [inversion Hstep; subst; simpl; cons_done | | inversion Hstep; subst; simpl; cons_done].
         destruct (get_handle s i) as [h|]; [|inversion Hstep; subst; simpl; cons_done].
         destruct (h_stale h); inversion Hstep; subst; simpl; cons_done.
       * destruct (negb _); [inversion Hstep; subst; simpl; cons_done|].
@@ -751,8 +751,8 @@ Qed.
 Lemma seq_op_completes c s slots o : exists r, snd (seq_op c s slots o) = Some r.
 Proof.
   unfold seq_op.
-  pose proof (run_thread_finishes c seq_fuel s {| t_pc := PIdle; t_prog := [o]; t_slots := slots; t_out := [] |}) as F.
-  pose proof (run_thread_opcount c seq_fuel s {| t_pc := PIdle; t_prog := [o]; t_slots := slots; t_out := [] |}) as O.
+  pose proof (run_thread_finishes c seq_fuel s (seq_thread o slots)) as F.
+  pose proof (run_thread_opcount c seq_fuel s (seq_thread o slots)) as O.
   destruct (run_thread seq_fuel c s _) as [s' th'] eqn:R. simpl in *. rewrite F by (unfold budget, seq_fuel; simpl; lia).
   specialize (F ltac:(unfold budget, seq_fuel; simpl; lia)).
   destruct (finished_inv _ F) as [E1 E2]. unfold opcount in O. rewrite E1, E2 in O. simpl in O.
@@ -802,7 +802,7 @@ Qed.
 Lemma seq_op_inv c s slots o : c_variant c = Repaired -> SeqInv c s -> SeqInv c (fst (fst (seq_op c s slots o))).
 Proof.
   intros Hv [A [B C]]. unfold seq_op.
-  set (th := {| t_pc := PIdle; t_prog := [o]; t_slots := slots; t_out := [] |}).
+  set (th := (seq_thread o slots)).
   pose proof (run_thread_TInv c Hv seq_fuel s th) as T.
   pose proof (run_thread_finishes c seq_fuel s th) as F.
   destruct (run_thread seq_fuel c s th) as [s' th'] eqn:R. simpl in *.
@@ -859,7 +859,7 @@ Proof.
   intros Hk. induction ops as [|o r IH]; intros s slots; simpl.
   - f_equal. lia.
   - unfold seq_op.
-    set (th := {| t_pc := PIdle; t_prog := [o]; t_slots := slots; t_out := [] |}).
+    set (th := (seq_thread o slots)).
     pose proof (run_thread_cons c Hk seq_fuel s th) as C.
     pose proof (run_thread_finishes c seq_fuel s th) as F.
     destruct (run_thread seq_fuel c s th) as [s' th'] eqn:R. simpl in *.
